@@ -207,7 +207,68 @@ def run(ctx):
             probs.append("the frame sent is not the received message")
     (ctx.bad if probs else ctx.ok)("X-LPM", "X-LPM:ArpRouter::demux", dm.span, "; ".join(probs) if probs else
         "next hop and interface come from get_recipient(header.destination); no route => early return; task sends on that interface to the resolved MAC")
+    x_resolved(ctx, prog, task)
     run_panics(ctx)
+
+
+def _leaves(t):
+    if t[0] == "ite":
+        return _leaves(t[2]) + _leaves(t[3])
+    if t[0] == "switch":
+        out = []
+        for _, y in t[2]:
+            out += _leaves(y)
+        return out + _leaves(t[3])
+    return [t]
+
+
+def x_resolved(ctx, prog, task):
+    """X-RESOLVED: the forwarding task, reduced to a formula over the outcome of Arp::resolve: when resolution fails
+    nothing is put on the wire (send_pci with no hardware address is a broadcast: every host and router on the network
+    would get the datagram, and routers would forward it again); when it succeeds the one frame goes to Some(that MAC)."""
+    from .. import symx as S
+    try:
+        t, ex = S.extract(prog, task, effects=True)
+    except S.Unsupported as e:
+        ctx.bad("X-RESOLVED", "X-RESOLVED:forwarding-task", task.span, "the forwarding task cannot be reduced to a formula (%s)" % e)
+        return
+    is_res = lambda x: x[0] == "await" and x[1][0] == "call" and "arp::{impl#0}::resolve" in x[1][1]
+    rs = set(S.atoms(t, is_res))
+    if len(rs) != 1:
+        ctx.bad("X-RESOLVED", "X-RESOLVED:forwarding-task", task.span, "expected one awaited Arp::resolve in the forwarding task, found %d" % len(rs))
+        return
+    R = rs.pop()
+    MAC = ("param", "resolved_mac")
+    is_send = lambda x: x[0] == "call" and x[1].endswith(K.SEND_PCI.split("::", 1)[-1]) or (x[0] == "call" and x[1] == K.SEND_PCI)
+
+    def case(ok):
+        def f(x):
+            if x == ("discr", R):
+                return ("const", 0 if ok else 1)
+            if x[0] == "field" and x[1][0] == "downcast" and x[1][1] == R:
+                return MAC if ok else ("opaque", "resolve-error")
+            if x[0] == "call" and x[1].endswith("::ok") and len(x[2]) == 1 and x[2][0] == R:      # Result::ok(r)
+                return ("agg", "core::option::Option::Some", (MAC,)) if ok else ("variant", "core::option::Option", "None", 0)
+            return None
+        return [S.atoms(l, is_send) for l in _leaves(S.subst(t, f))]
+    probs = []
+    for sends in case(False):
+        if sends:
+            dst = sends[0][2][2] if len(sends[0][2]) > 2 else None
+            probs.append("when the next hop cannot be resolved the datagram is still put on the wire (destination hardware address %s%s)" % (
+                S.term_str(dst) if dst else "?", ": a broadcast, every host and router on that network receives it" if dst and dst[0] == "variant" and dst[2] == "None" else ""))
+            break
+    okc = case(True)
+    if not okc or any(len(sends) != 1 for sends in okc):
+        probs.append("when the next hop is resolved the task does not send exactly one frame on every path")
+    else:
+        for sends in okc:
+            dst = sends[0][2][2]
+            if dst != ("agg", "core::option::Option::Some", (MAC,)):
+                probs.append("the frame goes to %s, not to Some(the hardware address ARP resolved)" % S.term_str(dst))
+                break
+    (ctx.bad if probs else ctx.ok)("X-RESOLVED", "X-RESOLVED:forwarding-task", task.span, "; ".join(probs) if probs else
+        "formula of the task: resolve fails => no send_pci; resolve = Ok(mac) => one send_pci(.., Some(mac), ..)")
 
 
 def run_panics(ctx):
